@@ -165,7 +165,8 @@ class QueueDriver(InstructionGenerator):
                 out.append(IdleInstruction(v.id))
                 continue
             if shake and act == "ChargeQueueing" and r < 0.75:
-                out.append(ChargeStationInstruction(v.id, v.vehicle_state.station_id, v.vehicle_state.charger_id))
+                cls = ChargeStationInstruction if r < 0.4 else DispatchStationInstruction      # "plug in" or "go there" (it is there)
+                out.append(cls(v.id, v.vehicle_state.station_id, v.vehicle_state.charger_id))
                 continue
             # mostly a plug the vehicle can use; now and then any plug of the station (wrong energy type included)
             usable = [c for c in plugs if environment.chargers[c].energy_type in v.energy] or plugs
@@ -589,6 +590,8 @@ def gen_shift_world(rng: random.Random, n_steps: int, dt: Optional[int] = None) 
     for k, (sid, _, _) in enumerate(sched):
         vehicles.append({"id": f"h{k+1}", "lat": c0[0], "lon": c0[1], "mech": "leaf_50", "soc": 0.9, "schedule": sid, "home_base": "b1"})
     vehicles.append({"id": "a1", "lat": c1[0], "lon": c1[1], "mech": "leaf_50", "soc": 0.9})
+    # ... and a driverless vehicle whose id sorts AFTER the human-driven ones (drivers are updated in id order)
+    vehicles.append({"id": "m1", "lat": c1[0], "lon": c1[1], "mech": "leaf_50", "soc": 0.85})
     # human-driven vehicles that run out of energy early in the run (away from home, nearly flat): their drivers' shifts
     # still begin and end while the vehicle is out of service
     for k, sid in enumerate(("grid", "wrap", "offgrid")):
